@@ -54,6 +54,7 @@ type output struct {
 	Sites       []siteInfo `json:"sites"`
 	Vars        []varInfo  `json:"vars"`
 	Unsupported []string   `json:"unsupported"` // sync / channel constructs found in non-test code
+	SyncShims   int        `json:"sync_shims"`  // Lock / Unlock / Once.Do statements bracketed by CritEnter / CritExit
 	Files       int        `json:"files"`
 	Funcs       int        `json:"funcs"`
 	Loops       int        `json:"loops"`
@@ -272,6 +273,7 @@ func (in *instr) file(p *packages.Package, f *ast.File, name string) error {
 	}
 
 	usedRT := false
+	handledSync := map[*ast.CallExpr]bool{}
 	tmp := 0
 	var firstErr error
 
@@ -407,7 +409,40 @@ func (in *instr) file(p *packages.Package, f *ast.File, name string) error {
 					}
 				}
 			}
-			in.noteUnsupportedCall(x, info)
+			if !handledSync[x] {
+				in.noteUnsupportedCall(x, info)
+			}
+		case *ast.ExprStmt:
+			// Mutual exclusion is modelled, not executed blindly: a task is never parked while
+			// it holds a lock (or runs inside sync.Once.Do), so a real Lock never blocks the
+			// thread that holds the baton, and accesses made under a lock are marked as such
+			// for the race rule.
+			if call, ok := x.X.(*ast.CallExpr); ok && inList[x] {
+				switch syncKind(call, info) {
+				case "lock":
+					edits = append(edits, edit{start: off(x.Pos()), end: off(x.Pos()), text: "zzsimrt.CritEnter(); ", prio: 3})
+					handledSync[call] = true
+				case "unlock":
+					edits = append(edits, edit{start: off(x.End()), end: off(x.End()), text: "; zzsimrt.CritExit()", prio: 1})
+					handledSync[call] = true
+				case "once":
+					edits = append(edits, edit{start: off(x.Pos()), end: off(x.Pos()), text: "zzsimrt.CritEnter(); ", prio: 3})
+					edits = append(edits, edit{start: off(x.End()), end: off(x.End()), text: "; zzsimrt.CritExit()", prio: 1})
+					handledSync[call] = true
+				}
+				if handledSync[call] {
+					in.out.SyncShims++
+					usedRT = true
+				}
+			}
+		case *ast.DeferStmt:
+			if inList[x] && syncKind(x.Call, info) == "unlock" {
+				// deferred calls run last-in first-out: the Unlock first, then this
+				edits = append(edits, edit{start: off(x.Pos()), end: off(x.Pos()), text: "defer zzsimrt.CritExit(); ", prio: 3})
+				handledSync[x.Call] = true
+				in.out.SyncShims++
+				usedRT = true
+			}
 		case *ast.GoStmt:
 			in.out.Unsupported = append(in.out.Unsupported, "go statement at "+in.fset.Position(x.Pos()).String())
 		case *ast.SendStmt:
@@ -532,6 +567,47 @@ func (in *instr) noteUnsupportedCall(c *ast.CallExpr, info *types.Info) {
 		in.out.Unsupported = append(in.out.Unsupported,
 			fmt.Sprintf("%s.%s at %s", obj.Pkg().Path(), obj.Name(), in.fset.Position(c.Pos())))
 	}
+}
+
+// syncKind classifies a call to a method of sync.Mutex, sync.RWMutex, sync.Locker
+// or sync.Once: "lock", "unlock", "once" or "".
+func syncKind(c *ast.CallExpr, info *types.Info) string {
+	sel, ok := c.Fun.(*ast.SelectorExpr)
+	if !ok {
+		return ""
+	}
+	s := info.Selections[sel]
+	if s == nil {
+		return ""
+	}
+	fn, ok := s.Obj().(*types.Func)
+	if !ok || fn.Pkg() == nil || fn.Pkg().Path() != "sync" {
+		return ""
+	}
+	recv := ""
+	if sig, ok := fn.Type().(*types.Signature); ok && sig.Recv() != nil {
+		t := sig.Recv().Type()
+		if pt, ok := t.(*types.Pointer); ok {
+			t = pt.Elem()
+		}
+		if nt, ok := t.(*types.Named); ok {
+			recv = nt.Obj().Name()
+		}
+	}
+	switch recv {
+	case "Mutex", "RWMutex", "Locker":
+		switch fn.Name() {
+		case "Lock", "RLock":
+			return "lock"
+		case "Unlock", "RUnlock":
+			return "unlock"
+		}
+	case "Once":
+		if fn.Name() == "Do" {
+			return "once"
+		}
+	}
+	return ""
 }
 
 func recvName(e ast.Expr) string {
